@@ -34,7 +34,9 @@ theorem policy_key_order (a b : Bytes) (hl : a.length = b.length) :
     bytesLt (policyKey a) (policyKey b) = bytesLt a b := policyKey_order a b hl
 
 /-- **spending redeemers**: after `build`, the redeemer attached to input `u` carries the rank of `u` among *all*
-inputs of the transaction (added by hand or selected), in the ledger's order — for any number of inputs -/
+inputs of the transaction (added by hand or selected), in the ledger's order — for any number of inputs.
+HYPOTHESIS `hn`: no UTxO occurs twice in `self.inputs` (then the body's input set `bodyInputs` is the list itself,
+`spend_index_body`).  It is needed: `spend_index_needs_nodup` (finding KF-C11-duplicate-input). -/
 theorem spend_index (net : Nat) (st st' : St) (sel : List TxIn) (ev : Nat → Nat → Option (Int × Int))
     (hb : build net st sel ev = some st') (hn : (st.inputs ++ sel).Nodup) (u : TxIn) (r : Rdm)
     (hr : (u, r) ∈ st'.inRedeemers) (hu : u ∈ st.inputs ++ sel) :
@@ -53,7 +55,26 @@ theorem spend_index (net : Nat) (st st' : St) (sel : List TxIn) (ev : Nat → Na
     rw [hidx, h0]
   · simp at h1
 
-/-- **minting redeemers**: the index is the rank of the script's policy among the minted policies (bytewise) -/
+/-- the same, stated against the set of inputs the body shows -/
+theorem spend_index_body (net : Nat) (st st' : St) (sel : List TxIn) (ev : Nat → Nat → Option (Int × Int))
+    (hb : build net st sel ev = some st') (hn : (st.inputs ++ sel).Nodup) (u : TxIn) (r : Rdm)
+    (hr : (u, r) ∈ st'.inRedeemers) (hu : u ∈ st.inputs ++ sel) :
+    r.index = rank inLt u.toPair ((bodyInputs (st.inputs ++ sel)).map TxIn.toPair) := by
+  rw [bodyInputs_of_nodup _ hn]; exact spend_index net st st' sel ev hb hn u r hr hu
+
+/-- without `hn` the statement is false of the code: `add_input(k)` twice and a script input `u` after `k` in the
+ledger order — the index is the list position 2, the body has two inputs and the rank of `u` is 1 -/
+theorem spend_index_needs_nodup :
+    ¬ ∀ (l : List TxIn) (u : TxIn), u ∈ l →
+      spendIndex u (sortInputs l) = some (rank inLt u.toPair ((bodyInputs l).map TxIn.toPair)) := by
+  intro h
+  have := h [⟨[0], 1⟩, ⟨[0], 1⟩, ⟨[0x5c], 0⟩] ⟨[0x5c], 0⟩ (by simp)
+  revert this
+  decide +kernel
+
+/-- **minting redeemers**: the index is the rank of the script's policy among the keys of `self.mint` (bytewise).
+HYPOTHESES: the keys are a dict's keys (`hn`) of 28-byte hashes (`hl`); that they are the *minted* policies of the
+body is the extra hypothesis of `mint_index_body` -/
 theorem mint_index (net : Nat) (st st' : St) (sel : List TxIn) (ev : Nat → Nat → Option (Int × Int))
     (hb : build net st sel ev = some st') (hn : st.mintKeys.Nodup) (hl : ∀ k ∈ st.mintKeys, k.length = 28)
     (s : Script) (r : Rdm) (hr : (s, some r) ∈ st'.minting) :
@@ -75,6 +96,28 @@ theorem mint_index (net : Nat) (st st' : St) (sel : List TxIn) (ev : Nat → Nat
     simp only [Option.some.injEq] at hi
     rw [hidx, ← hi]
   · simp at h1
+
+/-- against the body: HYPOTHESIS `hnorm` — every policy stored in `self.mint` holds a non-zero quantity (true of every
+mint value produced by `+` / `-` / decoding, which normalise), so that the stored keys are the policies of the body's
+mint field.  It is needed: `mint_index_needs_minted` (finding KF-C11-zero-mint-policy). -/
+theorem mint_index_body (net : Nat) (st st' : St) (sel : List TxIn) (ev : Nat → Nat → Option (Int × Int))
+    (hb : build net st sel ev = some st') (mint : MultiAsset) (hk : st.mintKeys = Dict.keys mint)
+    (hw : Dict.WF mint) (hnorm : MultiAsset.Normal mint) (hl : ∀ k ∈ st.mintKeys, k.length = 28)
+    (s : Script) (r : Rdm) (hr : (s, some r) ∈ st'.minting) :
+    r.index = rank policyLt s.hash (bodyPolicies mint) := by
+  rw [bodyPolicies_of_normal mint hnorm, ← hk]
+  exact (mint_index net st st' sel ev hb (by rw [hk]; exact hw) hl s r hr).2
+
+/-- without `hnorm` the statement is false of the code: a stored policy `01…` with quantity 0 is counted by
+`sorted(self.mint.keys())` but is not in the body, so the redeemer of policy `02…` gets index 1 instead of rank 0 -/
+theorem mint_index_needs_minted :
+    ¬ ∀ (mint : MultiAsset) (h : Bytes), Dict.WF mint → h ∈ bodyPolicies mint →
+      mintIndex (Dict.keys mint) h = some (rank policyLt h (bodyPolicies mint)) := by
+  intro h
+  have := h [(List.replicate 28 1, [([0x61], 0)]), (List.replicate 28 2, [([0x61], 5)])] (List.replicate 28 2)
+    (by unfold Dict.WF Dict.keys; decide +kernel) (by decide +kernel)
+  revert this
+  decide +kernel
 
 /-- **reward redeemers**: the index is the rank of the script's reward account among *all* withdrawal keys in
 bytewise order (which is the ledger's order when all accounts have one credential kind, see `Spec/Ranks.lean`) -/
@@ -300,7 +343,11 @@ end Pyc.C11
 #print axioms Pyc.C11.sortInputs_sorted
 #print axioms Pyc.C11.policy_key_order
 #print axioms Pyc.C11.spend_index
+#print axioms Pyc.C11.spend_index_body
+#print axioms Pyc.C11.spend_index_needs_nodup
 #print axioms Pyc.C11.mint_index
+#print axioms Pyc.C11.mint_index_body
+#print axioms Pyc.C11.mint_index_needs_minted
 #print axioms Pyc.C11.reward_index
 #print axioms Pyc.C11.redeemers_kept
 #print axioms Pyc.C11.cert_index
